@@ -25,6 +25,8 @@ fn writer(tier: &str) -> Vec<String> {
     for ctor in ["0", "1"] {
         v.push(format!("sock-buf:sink=spy:depth={}:ctor={}", if thorough { 3 } else { 2 }, ctor));
     }
+    v.push("sock-buf:sink=spy:cap=16384:depth=3".to_string());
+    v.push("sock-buf:sink=udp:cap=8932:depth=2".to_string());
     for sink in ["udp", "unix"] {
         v.push(format!("sock-buf:sink={}:cap=8:depth={}", sink, if thorough { 4 } else { 3 }));
         v.push(format!("sock-buf:sink={}:depth=2", sink));
@@ -490,6 +492,10 @@ fn c13(tier: &str) -> Vec<String> {
             v.push(format!("sock-buf:sink={}:cap={}:depth={}", sink, cap, if th { 4 } else { 3 }));
         }
     }
+    // capacities above the usual buffer sizes (jumbo frames, Unix sockets)
+    v.push("sock-buf:sink=udp:cap=16384:depth=3".to_string());
+    v.push("sock-buf:sink=unix:cap=8932:depth=3".to_string());
+    v.push("sock-buf:sink=unix:cap=32768:depth=2".to_string());
     // flush racing emit on the real socket sinks (all interleavings)
     for prog in ["EF.EE", "EE.F.E", "E.F", "EF.EF"] {
         for sink in ["unix", "udp"] {
